@@ -455,3 +455,34 @@ PROPS["C19"] = dict(
         seeded("bind", "e2e", "^TestC19$", 60 if tier == "quick" else 1500, 16, timeout=900 if tier == "quick" else 3400),
     ],
 )
+
+PROPS["C17"] = dict(
+    title="Secure sessions: media encrypted and authenticated end to end, no downgrade",
+    pkg="e2e",
+    rule=("four generated sub-checks. (keys, through the verif hook on the unexported SRTP context) random 30-byte keys, with/without a 4-byte "
+          "MKI, 1..4 SSRCs each with its own starting sequence number (half of them within 40 of the wrap or at 0..3), starting roll-over counter "
+          "(0, small, 65535, 2^31, 2^32-2) and 0..60 packets sent before the key exchange; the sender's context is turned into a MIKEY message, "
+          "marshalled, parsed, turned into a receiver context; 1..60 further packets per SSRC (round-robin) and 0..4 RTCP packets must decrypt to "
+          "exactly the plain bytes, must not contain 12 consecutive payload bytes in clear, and 0..6 copies with one flipped bit (any position: "
+          "header, payload, MKI, tag) must all be refused. (admit) SETUP requests from a scripted peer: TLS on/off x AVP/SAVP x UDP/TCP/multicast "
+          "x play/record x key management none/valid/one of 11 altered MIKEY messages: a secure profile over plain RTSP, plain UDP or multicast "
+          "over RTSPS, and key management declaring SRTP encryption, SRTCP encryption or SRTP authentication off or absent must be answered "
+          "with an error. (wire) RTSPS worlds with a reader over UDP, TCP or automatic (UDP, then the library's own switch to TCP because no "
+          "datagram arrives) and optionally a publisher; 4..40 RTP packets per direction plus RTCP, all carrying a 33-byte marker; taps on every "
+          "UDP socket and, above TLS, on the clients' control connections: no datagram or interleaved frame contains 16 marker bytes, every SETUP "
+          "of the clients asks for SAVP, delivered payloads equal written ones, 0..4 server->reader datagrams get one bit flipped in transit "
+          "and must not be delivered. (downgrade) a TLS scripted server redirects DESCRIBE (301/302/303/305) to a plain scripted server: the "
+          "client must fail without ever connecting to it. Non-trivial: keys - a sequence wrap or a tampered copy; admit - a combination that "
+          "must be refused; wire - tampering, a protocol switch or a publisher. Distinct by case hash."),
+    assumptions=[
+        "tampering in transit is applied to UDP datagrams only (interleaved frames travel inside TLS, which already authenticates them)",
+        "a flipped bit in the first two header bytes is moved into the body in the wire sub-check (the keys sub-check covers every position)",
+        "back channels are not exercised in the wire sub-check",
+    ],
+    jobs=lambda tier: [
+        seeded("keys", "e2e", "^TestC17Keys$", 1500 if tier == "quick" else 40000, 4, timeout=900 if tier == "quick" else 3400),
+        seeded("admit", "e2e", "^TestC17Admit$", 150 if tier == "quick" else 3000, 4, timeout=900 if tier == "quick" else 3400),
+        seeded("wire", "e2e", "^TestC17Wire$", 60 if tier == "quick" else 1500, 8, timeout=900 if tier == "quick" else 3400),
+        seeded("downgrade", "e2e", "^TestC17Downgrade$", 60 if tier == "quick" else 1000, 1, timeout=900),
+    ],
+)
